@@ -173,6 +173,9 @@ cfg_k8s! {
 }
 // Utility functions for Sentinel.
 pub mod utils;
+/// Verification hooks; compiled only with `--cfg flea1lt_sentinel_rust_verif`.
+#[cfg(flea1lt_sentinel_rust_verif)]
+pub mod verif;
 
 // re-export precludes
 pub use crate::core::*;
